@@ -1,5 +1,6 @@
 (* C15 — replies are dispatched solely by their class and instruction bytes.  Statements only. *)
 From Zvt Require Import Base Length Cp437 Encoding Codec Lookup EnumProps SpecCheck.
+From Zvt Require Import CanonClass CanonRoundtrip CanonShipped.
 From Zvt.gen Require Import Layouts Tables.
 Open Scope N_scope.
 
@@ -40,6 +41,22 @@ Proof. exact upload_and_ack_agree_with_spec. Qed.
 Example C15_ex : (17 <= length enums)%nat /\ find_enum "zvt::io::Ack" <> None.
 Proof. split; [vm_compute; lia|vm_compute; discriminate]. Qed.
 
+(* together with C01: what ANY variant's packet type serialises (every value of the class `canon`), the reply parser reads back as
+   exactly that variant with exactly that content — for every enum with pairwise distinct one-byte class / instruction pairs ... *)
+Theorem C15_reply_roundtrip : forall fuel vs k nm c v b,
+  nodup_cf (map v_cf vs) = true -> nth_error vs k = Some (nm, c) ->
+  c_class c < 256 -> c_instr c < 256 -> (depth_fields (c_fields c) <= S fuel)%nat ->
+  canon_cmd c v = Some b ->
+  enc_cmd c v = Ok b /\ parse_enum fuel vs b = Ok (N.of_nat k, v).
+Proof. exact reply_roundtrip. Qed.
+(* ... and for every shipped reply parser (regenerated tables) *)
+Theorem C15_shipped_reply_roundtrip : forall name vs k nm c v b,
+  In (name, vs) enums -> nth_error vs k = Some (nm, c) -> canon_cmd c v = Some b ->
+  enc_cmd c v = Ok b /\ parse_enum FUEL vs b = Ok (N.of_nat k, v).
+Proof. exact shipped_reply_roundtrip. Qed.
+
+Print Assumptions C15_reply_roundtrip.
+Print Assumptions C15_shipped_reply_roundtrip.
 Print Assumptions C15_dispatch_sound.
 Print Assumptions C15_dispatch_complete.
 Print Assumptions C15_outside_is_error.
